@@ -190,6 +190,13 @@ class Pat:
         if self.kind == 'char':
             if conc(cp) and conc(self.c):
                 return cp == self.c, nb
+            if conc(self.c) and self.c >= 0x80:
+                # a concrete multi-byte char against symbolic bytes: compare its UTF-8 encoding (the text is
+                # valid UTF-8, so a match of the encoding at a char boundary is a match of the char)
+                enc = encode_cp(self.c)
+                if off + len(enc) > len(bs):
+                    return False, 0
+                return bytes_equal(bs[off:off + len(enc)], enc), len(enc)
             return cp == self.c, nb
         if self.kind == 'chars':
             r = False
